@@ -137,13 +137,4 @@ theorem execHashKey_eq (env : Env) (a : Val) (h : Spec.hashKeyV env a ≠ .stuck
   · simp [Impl.execHashKey]
   · exact absurd rfl h
 
-/-- **the unary instructions of extension 2**: the mirror computes the reference value wherever a rule applies -/
-theorem execUn_eq (env : Env) (i : Instr) (a : Val) (h : Spec.unV env i a ≠ .stuck) :
-    Impl.execUn env i a = Spec.unV env i a := by
-  cases i <;> first | (exact absurd rfl h) | skip
-  · exact execNat_eq a h
-  · exact execBytes_eq a h
-  · exact execVotingPower_eq env a h
-  · exact execHashKey_eq env a h
-
 end Interp
